@@ -218,12 +218,21 @@ def run(ctx, chk, tier="quick"):
     ok_args = len(args) == 4
     if ok_args:
         a_rain, a_head, a_rt, a_jt = args
-        r_ok = isinstance(a_rain, ast.Name) and bl.get(a_rain.id, ("",))[0] == "col" and bl[a_rain.id][2] == "rainfall_intensity_mm_h"
-        h_ok = isinstance(a_head, ast.Name) and bl.get(a_head.id, ("",))[0] == "col" and bl[a_head.id][2] == "zeta_mm"
-        rt_ok = isinstance(a_rt, ast.Name) and roles.get((mas.fq, a_rt.id)) == "storm" and maflow.is_param(a_rt)
-        chk.ob("C03.O1", r_ok and h_ok and rt_ok, where_of(mas, mc), "match_storms(%s)" % ", ".join(ast.unparse(a) for a in args),
-               "(rainfall intensity, water level, storm threshold, jump threshold x step)", key="match_all_storms|match-args",
-               why="swapped series or thresholds classify the wrong quantity")
+        def col_of(a):
+            """SQL column an argument is bound to: name, '' if bound to something else, None if unknown"""
+            if not isinstance(a, ast.Name) or a.id not in bl:
+                return None
+            return bl[a.id][2] if bl[a.id][0] == "col" else ""
+        c_rain, c_head = col_of(a_rain), col_of(a_head)
+        rt_role = roles.get((mas.fq, a_rt.id)) if isinstance(a_rt, ast.Name) and maflow.is_param(a_rt) else None
+        if c_rain is None or c_head is None or rt_role is None:
+            chk.indeterminate("C03.O1", where_of(mas, mc), "arguments of match_storms(%s) cannot be traced to the series query / the threshold parameters"
+                              % ", ".join(ast.unparse(a) for a in args))
+        else:
+            chk.ob("C03.O1", c_rain == "rainfall_intensity_mm_h" and c_head == "zeta_mm" and rt_role == "storm", where_of(mas, mc),
+                   "match_storms(%s) = (%s, %s, %s threshold, ...)" % (", ".join(ast.unparse(a) for a in args), c_rain or "?", c_head or "?", rt_role),
+                   "(rainfall intensity, water level, storm threshold, jump threshold x step)", key="match_all_storms|match-args",
+                   why="swapped series or thresholds classify the wrong quantity")
         # jump delta
         try:
             jd = maflow.expand(a_jt, keep=set(mas.params))
